@@ -221,8 +221,11 @@ class Gen:
         if length == 4 and r < 0.97:
             # 2x2 matrices stored column-major in 4-element arrays
             a, b = rng.choice(same), rng.choice(same)
-            if rng.random() < 0.5:
+            q = rng.random()
+            if q < 0.4:
                 return self.bcall("<builtin>matmul", [["var", a], ["var", b], ["num", 2], ["num", 2]])
+            if q < 0.6:
+                return self.bcall("<builtin>linear_solve", [["var", a], ["var", b], ["num", 2], ["num", 2]])
             return self.bcall("<builtin>transpose", [["var", a], ["num", 2]])
         return ["neg", ["var", rng.choice(same)]]
 
